@@ -98,6 +98,8 @@ def make_source(cfg, seed):
         for k, s in enumerate(a.streams):
             if noise:
                 s.add_noise(0.1 * k, noise)
+                if cfg.get('noise2'):
+                    s.add_noise(-0.05, 0.7 * noise)         # a second, independent noise source on the same stream
             s.add_constant_signal(f_start=tone_f(k), drift_rate=cfg.get('drift', 0.0), level=level)
         return a
     n = {'arr2': 2, 'arr3': 3}[src]
@@ -112,6 +114,8 @@ def make_source(cfg, seed):
         for k, s in enumerate(a.streams):
             if noise:
                 s.add_noise(0.05 * i, noise)
+                if cfg.get('noise2'):
+                    s.add_noise(-0.05, 0.7 * noise)
             s.add_constant_signal(f_start=tone_f(2 * i + k), drift_rate=cfg.get('drift', 0.0), level=level)
     return arr
 
